@@ -55,6 +55,24 @@ def np_empty(I, shape=None, dtype=None, **kw):
     return Arr(shape, lambda i: f(lift(i)))
 
 
+def np_full(I, shape, fill_value, dtype=None, **kw):
+    """np.full(n, v) / np.full((r, c), v): every entry is v"""
+    if isinstance(fill_value, (Arr, Mat, Havoc, list, tuple, dict)):
+        raise Unsupported('np.full with a non-scalar fill value')
+    if fill_value is None:
+        # np.nan: every entry undefined (kept as an optional value so that later writes / isnan tests work like for np.empty + fill)
+        und = z3.Function(fresh_name('full_nan'), z3.IntSort(), z3.RealSort())
+        if isinstance(shape, (tuple, list)) and len(shape) == 2:
+            raise Unsupported('np.full((r, c), nan)')
+        n_ = shape[0] if isinstance(shape, (tuple, list)) else shape
+        return Arr(n_, lambda i: sym.Opt(z3.BoolVal(True), und(lift(i))))
+    if isinstance(shape, (tuple, list)):
+        if len(shape) == 2:
+            return Mat(shape[0], shape[1], lambda r, c: fill_value, sparse=False)
+        shape = shape[0]
+    return Arr(shape, lambda i: fill_value)
+
+
 def _as_arr(I, v):
     if isinstance(v, Arr):
         return v
@@ -222,7 +240,7 @@ def np_floor(I, x):
 
 
 NP = ModelNS('numpy', dict(
-    zeros=np_zeros, ones=np_ones, empty=np_empty, asarray=np_asarray, array=np_array, hstack=np_hstack,
+    zeros=np_zeros, ones=np_ones, empty=np_empty, full=np_full, asarray=np_asarray, array=np_array, hstack=np_hstack,
     concatenate=np_concatenate, append=np_append, vstack=np_vstack, tile=np_tile, minimum=np_minimum,
     maximum=np_maximum, cumsum=np_cumsum, sum=np_sum, isnan=np_isnan, all=np_all, any=np_any, arange=np_arange,
     reshape=np_reshape, delete=np_delete, unique=np_unique, where=np_where, ceil=np_ceil, floor=np_floor,
@@ -626,6 +644,15 @@ class SymSet:
 def b_len(I, v):
     if isinstance(v, Havoc):
         return v
+    if type(v).__name__ == 'RowSel':
+        # number of selected rows: only "is it zero" is characterised (that is what the code asks)
+        # (a function of the enclosing loop variables, so that a test on it is recognised as depending on the iteration)
+        lv = [lc.var for lc in I.loops]
+        cnt = z3.Function(sym.fresh_name('rowsel!len'), *([z3.IntSort()] * (len(lv) + 1)))(*lv) if lv else z3.Int(sym.fresh_name('rowsel!len'))
+        q = z3.Int(sym.fresh_name('rowsel!q'))
+        n = lift(v.n if v.parts else 0)
+        I.assume_silent(z3.And(cnt >= 0, (cnt == 0) == z3.Not(z3.Exists([q], z3.And(q >= 0, q < n, v.pred(q))))))
+        return cnt
     if isinstance(v, SymSet):
         return v.size()
     if isinstance(v, SymMap):
@@ -1366,6 +1393,39 @@ def label_position(I, index, label):
     raise Unsupported('loc[label]: label not recognisably taken from the index')
 
 
+def _positional(index):
+    probe = z3.Int('probe!positional')
+    v = index.f(probe)
+    return is_z3(v) and lift(v).eq(probe)
+
+
+class SelColumn:
+    """frame.loc[list of row positions, column]: the column's values at the selected rows (RowSel)"""
+
+    def __init__(self, rows, col):
+        self.rows, self.col = rows, col
+
+
+class UniqueVals:
+    """SelColumn.unique(): the distinct values -- as a set predicate  v in U  <=>  exists selected row q: col[q] == v"""
+
+    def __init__(self, sel):
+        self.sel = sel
+
+    def member(self, v):
+        q = z3.Int(sym.fresh_name('uniq!q'))
+        rs, col = self.sel.rows, self.sel.col
+        return z3.Exists([q], z3.And(q >= 0, q < lift(rs.n if rs.parts else 0), rs.pred(q), lift(col.f(q)) == lift(v)))
+
+
+class PickedByUnique:
+    """arr[UniqueVals]: the entries of arr at the distinct (integer) values; only its sum is modelled:
+    sum_t [t in U] arr[t]  (every value of U must be a valid position: obligation)"""
+
+    def __init__(self, arr, uniq):
+        self.arr, self.uniq = arr, uniq
+
+
 class _Loc:
     def __init__(self, df):
         self.df = df
@@ -1381,6 +1441,19 @@ class _Loc:
 
     def getitem(self, I, idx, what):
         df = self.df
+        if isinstance(idx, tuple) and len(idx) == 2 and isinstance(idx[1], str) and type(idx[0]).__name__ == 'RowSel':
+            if idx[1] not in df.cols or not isinstance(df.cols[idx[1]], Arr):
+                raise PyRaise('KeyError', idx[1])
+            if not z3.is_true(z3.simplify(lift(df.n) == lift(idx[0].n if idx[0].parts else df.n))):
+                raise Unsupported('rows of another frame')
+            return SelColumn(idx[0], df.cols[idx[1]])
+        if isinstance(idx, tuple) and len(idx) == 2 and isinstance(idx[1], str) and is_z3(idx[0]) and z3.is_int(idx[0]) and _positional(df.index):
+            # frame with a positional index (after reset_index): label = position
+            if idx[1] not in df.cols:
+                raise PyRaise('KeyError', idx[1])
+            k = I.bounds_check(idx[0], df.n, 'loc[row number]')
+            col = df.cols[idx[1]]
+            return col if isinstance(col, Havoc) else col.f(k)
         if isinstance(idx, tuple) and len(idx) == 2 and isinstance(idx[1], str) and isinstance(idx[0], (TS, str)):
             if idx[1] not in df.cols:
                 raise PyRaise('KeyError', idx[1])
@@ -1648,6 +1721,18 @@ _old_value_attr = value_attr
 
 
 def value_attr(I, o, attr):      # noqa: F811  (extends the dispatcher above)
+    if isinstance(o, SelColumn):
+        if attr == 'unique':
+            return lambda I_: UniqueVals(o)
+        raise Unsupported('selected column.' + attr)
+    if isinstance(o, PickedByUnique):
+        if attr == 'sum':
+            def _sum(I_):
+                t = z3.Int(sym.fresh_name('uniq!t'))
+                arr, U = o.arr, o.uniq
+                return sym.SUMS.prefix(lambda j: sym.ite(U.member(lift(j)), arr.f(lift(j)), 0.0), I.pc)(lift(arr.n))
+            return _sum
+        raise Unsupported('entries at distinct values.' + attr)
     if isinstance(o, RepoModule):
         if attr in I.repo.classes:
             return RepoClass(attr)
